@@ -26,7 +26,14 @@ type Variant struct {
 	New      string   `json:"new"`
 	Expect   string   `json:"expect"`           // substring of the obligation key expected to fail
 	Benign   bool     `json:"benign,omitempty"` // behaviour-preserving edit: the check must stay silent
+	More     []Edit   `json:"more,omitempty"`   // further edits of the same file (two cooperating sites)
 	Note     string   `json:"note,omitempty"`
+}
+
+// Edit is one more replacement in a variant's file.
+type Edit struct {
+	Old string `json:"old"`
+	New string `json:"new"`
 }
 
 // SelfTestResult summarises a self-test run.
@@ -92,13 +99,22 @@ func SelfTest(prop string, verbose bool) SelfTestResult {
 			path := filepath.Join(dir, v.File)
 			src, err := os.ReadFile(path)
 			line := ""
-			if err != nil || strings.Count(string(src), v.Old) != 1 {
+			applies := err == nil && strings.Count(string(src), v.Old) == 1
+			for _, e := range v.More {
+				if applies && strings.Count(string(src), e.Old) != 1 {
+					applies = false
+				}
+			}
+			if !applies {
 				mu.Lock()
 				res.Skipped = append(res.Skipped, name)
 				mu.Unlock()
 				line = "SKIP  " + name + " (edit does not apply to the current tree)"
 			} else {
 				mod := strings.Replace(string(src), v.Old, v.New, 1)
+				for _, e := range v.More {
+					mod = strings.Replace(mod, e.Old, e.New, 1)
+				}
 				p, err := load.Load(load.Options{Dir: dir, Overlay: map[string][]byte{path: []byte(mod)}})
 				if err != nil {
 					mu.Lock()
